@@ -22,9 +22,9 @@ NOT_DECIDED = ("correctness of echs_instant_fixup/add/diff and of the epoch conv
 TRUSTED = ["clang 14 parser/CFG builder", "echse-facts extractor", "python rule engines in /verif/sa", "python datetime (oracle for day counts)"]
 LEVEL_TEXT = ("Static verdict on necessary structural clauses of C08: 64-bit evaluation of millisecond quantities, mutual agreement of all "
               "calendar tables/macros/epoch constants with the Gregorian month lengths, sentinel/bit-field agreement, and the year carry that "
-              "a March-based table requires. It does not decide the arithmetic algorithms as functions of their inputs.")
+              "a March-based table requires. It does not decide the arithmetic algorithms as functions of their inputs. Also: year and month of one assembled date come from one state of a stepped index; the conversions carry no state between calls (memo keys must cover every argument).")
 LEVEL_NOTE = "Trusted: clang 14 front end/CFG, extractor, rule engines; only the little-endian layout of echs_instant_u is compiled and therefore examined."
-TECHNIQUE = "static analysis: typed-width inspection of expression trees with def-use closure, constant-table agreement against derived calendar values, sibling contradiction rule"
+TECHNIQUE = "static analysis: typed-width inspection of expression trees with def-use closure, constant-table agreement against derived calendar values, sibling contradiction rule; carried-state / memo-key analysis of function-local statics"
 
 ML = [0, 31, 28, 31, 30, 31, 30, 31, 31, 30, 31, 30, 31]
 
